@@ -53,6 +53,14 @@ def delta(before: str, after: str):
             minus.update(a[i1:i2])
         if tag in ("replace", "insert"):
             plus.update(b[j1:j2])
+    # which of two equal constants the matcher pairs up is arbitrary (`f(a=False)` -> `f(a=True, b=False)`): a constant
+    # that is both deleted and inserted cancels out; identifiers and star markers do not (a moved argument stays visible)
+    for tok in list(minus):
+        if tok in plus and (tok in ("True", "False", "None") or tok[:1] in "0123456789'\"" or tok[:2].lower() in ("b'", 'b"', "r'", 'r"', "f'", 'f"', "u'", 'u"')):
+            n = min(minus[tok], plus[tok])
+            minus[tok] -= n
+            plus[tok] -= n
+    minus, plus = +minus, +plus
     ca, cb = Counter(ia), Counter(ib)
     minus.update({f"import:{k}": v for k, v in (ca - cb).items()})
     plus.update({f"import:{k}": v for k, v in (cb - ca).items()})
